@@ -407,9 +407,23 @@ package dnsserver
 // parameters into a fresh slice.
 //@ func isDoH
 //@   modifies nothing
+//@ func urlQueryParameterToUint16
+//@   modifies nothing
+//@ func urlQueryParameterToBoolean
+//@   modifies nothing
+//@ func setEDNSFromQuery
+//@   modifies req.Extra
+// C01 (transport parity of the JSON API): the message handed to the packer
+// asks exactly one question - the name of the `name` parameter, made fully
+// qualified and otherwise as the client wrote it (no case folding), with the
+// type and class parsed from the query.
 //@ func httpRequestToMsgJSON
+//@   property C01 C06
+//@   requires httpReq != nil && httpReq.URL != nil
 //@   modifies stamped
-//@   ensures err == nil ==> off(b) + len(b) <= stamped[arr(b)]
+//@   atcall Pack assert the-question-is-what-the-client-asked: len(arg0.Question) == 1 && arg0.Question[0].Name == fqdnOf(name) &&
+//@            arg0.Question[0].Qtype == qt && arg0.Question[0].Qclass == qc
+//@   ensures own-bytes-only: err == nil ==> off(b) + len(b) <= stamped[arr(b)]
 
 //@ func httpRequestToMsg
 //@   property C06
